@@ -231,7 +231,7 @@ def run(only=None):
             if len(g.edges) < 300:
                 raise core.MachineryError("Identity edge dump too small (%d)" % len(g.edges))
             r.notes["spec_transitions_%d" % len(names)] = len(g.edges)
-            paths = g.transition_cover(rng)
+            paths = g.transition_cover(rng, tail=1)
             if not thorough and len(paths) > 900:
                 paths = rng.sample(paths, 900)
             paths += g.random_walks(600 if thorough else 120, 14, rng)       # other pasts for the same transitions
